@@ -196,13 +196,18 @@ CHECKS = {
              "snapshot order; NON-INTERFERENCE: for tracks that do not call the timeline API and unique track identities, a tick "
              "decomposes into a per-track function (own note-offs, own pending starts, own solo tick): the event phase is the merge "
              "of the tracks' own contributions in scheduling order, the track list the list of their own survivors, and the same "
-             "formula describes the track alone. Static-pattern hold / idempotence, current time and globals are decided by "
-             "reference state machines in the harness.",
+             "formula describes the track alone. OVER WHOLE RUNS (run_is_merge, alone_is_the_solo_timeline; any number of ticks, "
+             "durations >= 1 unit, tolerant mode or fault-free world): the track list after n ticks is the list of survivors of the "
+             "tracks' own trajectories, the rest of the timeline evolves independently of the tracks, and the calls of every tick are "
+             "the phase-wise concatenation, in scheduling order, of exactly the calls the timeline holding each track alone makes. "
+             "Static patterns / globals: a Lean state machine with idempotence, never-skips, held-at-least-its-duration theorems, "
+             "driven by the read times of the real pattern.",
         design="DESIGN.md §3 C07",
-        note=SCHED_NOTE + " The decomposition is proved per tick (the multi-tick form follows by iterating the per-track function) "
-             "for worlds without action callbacks; with callbacks tracks interact by design. PStaticPattern/PGlobals are checked "
-             "against a reference state machine in the harness (no Lean model).",
-        technique="Lean 4 tick-decomposition theorem (non-interference, induction over the track snapshot) + merge oracle + reference state machines + differential correspondence"),
+        note=SCHED_NOTE + " The decomposition is proved per tick and over whole runs for worlds without action callbacks and with "
+             "stop-when-done off (with callbacks or stop-when-done tracks interact by design); the run theorem needs no hypothesis on "
+             "reachable states: non-divergence and absence of exceptions are derived from the world (PosDur, Faultless). "
+             "PStaticPattern/Globals: lean/IsobarV/Static/Model.lean, tied by the static driver suite; PCurrentTime is compared directly.",
+        technique="Lean 4 tick-decomposition and whole-run non-interference theorems (induction over the track snapshot and over ticks) + merge oracle + Lean static-pattern state machine + differential correspondence"),
     "C17": dict(
         text="Theorems: in tolerant mode no track exception ever escapes the track phase (any fault site, any number/order of "
              "tracks), the timeline's time advances exactly one tick per tick; the failing track is removed, its notes released, and "
@@ -210,9 +215,11 @@ CHECKS = {
              "exceptions are swallowed in both modes; a callback StopIteration ends the track.",
         design="DESIGN.md §3 C17",
         note=SCHED_NOTE + " 'Every other track's output is identical to a run without the failing track' is the theorem "
-             "fault_isolated (tracks without action callbacks, any position / number of tracks / fault site), and is also decided by a "
-             "differential oracle on the real code (with vs without the failing tracks).",
-        technique="Lean 4 induction over the track snapshot + fault-injection differential oracle + correspondence"),
+             "fault_isolated (one tick) and fault_isolated_run (any number of ticks: same states of all other tracks, the failing "
+             "track's calls merely inserted at its place in each phase, every tick returns normally) for tracks without action "
+             "callbacks, any position / number of tracks / fault site / fault time; also decided by a differential oracle on the "
+             "real code (with vs without the failing tracks).",
+        technique="Lean 4 induction over the track snapshot and over ticks (fault isolation for whole runs) + fault-injection differential oracle + correspondence"),
     "C02": dict(
         text="Theorems over ALL histories of the scheduler model (any number of API calls, ticks, callbacks, faults): "
              "note-ons = note-offs + pending for every (note, channel); no off without on; no sound left when no track is left or when "
